@@ -208,6 +208,11 @@ type pathExec struct {
 	shaConcrete []concreteCompress
 	shaConcreteOverflow bool
 	inBlocked int
+	// innermost function of the panic most recently caught by verifrt.Catch
+	lastPanicSite string
+	// cooperative goroutines (verifrt.Goroutines)
+	sched         *sched
+	pendingTimers []*channel
 	sleeps    int
 	dialConn  value
 	blockedRetries int
@@ -570,6 +575,11 @@ func (ex *pathExec) reach(label string) {
 // onBlocked gives the harness a chance to run other units when the current
 // one would block.  Returns true if the operation should be retried.
 func (ex *pathExec) onBlocked(fr *frame, what string, ch *channel) bool {
+	if ex.sched != nil {
+		t := ex.pendingTimers
+		ex.pendingTimers = nil
+		return ex.sched.blocked(what+" at "+fr.pos(), t)
+	}
 	if ex.hooks.onBlocked == nil || ex.inBlocked > 0 {
 		return false // no hook, or already inside the hook (units run by the hook simply block)
 	}
@@ -597,7 +607,7 @@ func (ex *pathExec) onAlloc(fr *frame, n value, elemSize int64) {
 	if ob == nil {
 		return
 	}
-	if fr.fn.Pkg == nil || !strings.HasPrefix(fr.fn.Pkg.Pkg.Path(), "github.com/tokenized/spynode") {
+	if fr.fn.Pkg == nil || !(strings.HasPrefix(fr.fn.Pkg.Pkg.Path(), "github.com/tokenized/spynode") || strings.HasPrefix(fr.fn.Pkg.Pkg.Path(), "github.com/tokenized/pkg/")) {
 		return
 	}
 	if strings.Contains(fr.fn.Name(), "VerifHarness") || strings.HasPrefix(fr.fn.Name(), "vk") {
@@ -606,6 +616,9 @@ func (ex *pathExec) onAlloc(fr *frame, n value, elemSize int64) {
 	limit := ob.base + ob.perByte*ob.inputLen
 	where := fr.pos()
 	site := "alloc@" + fr.fn.RelString(fr.fn.Pkg.Pkg)
+	if !strings.HasPrefix(fr.fn.Pkg.Pkg.Path(), "github.com/tokenized/spynode") {
+		site = "alloc@" + fr.fn.String() // dependency: fully qualified
+	}
 	s, isS := n.(sv)
 	if !isS {
 		bytes := asInt64(n) * elemSize
@@ -856,6 +869,9 @@ func (e *Explorer) runPath(sv *solver, prefix []traceEntry) (res *PathResult, en
 		res.Steps = i.steps
 		res.funcs = i.funcsRun
 		r := recover()
+		if ex.sched != nil {
+			ex.sched.killAll()
+		}
 		if r == nil {
 			return
 		}
